@@ -1275,7 +1275,7 @@ Proof.
     rewrite (dup_elems_NoDup _ N1), (dup_elems_NoDup _ N2). reflexivity.
 Qed.
 
-(* all state clauses (allow-*, index-*, voters-* incl. duplicates, record-*) together: the checker accepts every state that satisfies the invariant, hence
+(* all state clauses together (allow, index, voters incl. duplicates, record): the checker accepts every state that satisfies the invariant, hence
    (indexes_refine_guarded) every state of a guarded model run *)
 Theorem chk_sound_state : forall ua up s who, inv s -> state_clauses up who None (obs_of ua up s) = [].
 Proof.
